@@ -44,7 +44,8 @@ class Run:
         self.seed = seed
         self.level = level
         self.t0 = time.time()
-        self.out = os.path.join(VERIF, "out", pid)
+        # one scratch directory per (property, tier): quick and thorough runs may overlap
+        self.out = os.path.join(VERIF, "out", "%s-%s%s" % (pid, tier, os.environ.get("VERIF_OUT_TAG", "")))
         shutil.rmtree(self.out, ignore_errors=True)
         os.makedirs(self.out)
         os.makedirs(os.path.join(VERIF, "out", "replay"), exist_ok=True)
@@ -77,6 +78,15 @@ class Run:
         os.makedirs(os.path.join(self.out, "bin"), exist_ok=True)
         binp = os.path.join(self.out, "bin", "drive")
         cmd = ["go", "build", "-tags", "verif", "-o", binp, "./cmd/drive"]
+        if REPO != "/repo":
+            # development aid: try the checks on a scratch worktree (seeded changes) without touching /repo
+            alt = os.path.join(self.out, "alt.mod")
+            with open(os.path.join(hdir, "go.mod")) as f:
+                mod = f.read().replace("=> /repo", "=> " + REPO)
+            with open(alt, "w") as f:
+                f.write(mod)
+            shutil.copy(os.path.join(hdir, "go.sum"), os.path.join(self.out, "alt.sum"))
+            cmd[2:2] = ["-modfile=" + alt]
         p = subprocess.run(cmd, cwd=hdir, env=env, stdout=subprocess.PIPE, stderr=subprocess.STDOUT, text=True)
         if p.returncode != 0:
             raise MachineryError("harness build failed:\n" + p.stdout)
@@ -272,8 +282,9 @@ class Run:
         ev = {"property_id": self.pid, "tier": self.tier, "seed": self.seed, "level": self.level,
               "coverage": cov, "assumptions": self.assumptions, "wall_s": wall,
               "violations": len(self.violations)}
-        os.makedirs(os.path.join(VERIF, "evidence"), exist_ok=True)
-        with open(os.path.join(VERIF, "evidence", self.pid + ".json"), "w") as f:
+        evdir = os.path.join(VERIF, "evidence") if REPO == "/repo" else self.out   # trial runs on a scratch tree leave no evidence
+        os.makedirs(evdir, exist_ok=True)
+        with open(os.path.join(evdir, self.pid + ".json"), "w") as f:
             json.dump(ev, f, indent=1, sort_keys=True)
             f.write("\n")
         for path, summ in self.violations[:20]:
